@@ -119,6 +119,10 @@ add("expanding.mean[frame]", "expanding.mean", "last", lambda d: d[["x", "y"]].e
 add("ewm(com=1).mean", "ewm.mean", "last", lambda d: d.x.ewm(com=1).mean(), classify=EWM)
 add("ewm(alpha=.5).mean", "ewm.mean", "last", lambda d: d.x.ewm(alpha=0.5).mean(), classify=EWM)
 add("ewm(com=1).mean[frame]", "ewm.mean", "last", lambda d: d[["x", "y"]].ewm(com=1).mean(), classify=EWM, cols=("x", "y"))
+add("ewm(span=3).mean", "ewm.mean", "last", lambda d: d.x.ewm(span=3).mean(), classify=EWM)
+add("ewm(halflife=1).mean", "ewm.mean", "last", lambda d: d.x.ewm(halflife=1).mean(), classify=EWM)
+add("rolling(2).var[ddof=0]", "rolling(n).var", "concat", lambda d: d.x.rolling(2).var(ddof=0))
+add("expanding.var[ddof=0]", "expanding.var", "last", lambda d: d.x.expanding().var(ddof=0))
 
 ROWS = [k for k in SPECS if not any(t in k for t in ("ns)", "s)"))]
 ROWS5 = [k for k in ROWS if not k.startswith(("rolling(1)", "rolling(2)"))]
@@ -126,6 +130,8 @@ T_NS = [k for k in SPECS if "ns)" in k]
 T_NS_CORE = [k for k in T_NS if "[frame]" not in k]
 T_S = [k for k in SPECS if "s)" in k and "ns)" not in k]
 LONG = ["rolling(3).sum", "rolling(3).count", "rolling(2).mean", "cumsum", "expanding.sum", "ewm(com=1).mean"]
+# cumulative aggregations on a DatetimeIndex with duplicate labels (also across batch boundaries)
+CUM_T = list(CUM_OPS) + ["cumsum[frame]", "expanding.sum", "ewm(com=1).mean"]
 
 
 def plan(ctx):
@@ -135,12 +141,14 @@ def plan(ctx):
                 F.Suite(T_NS, "v", {1: 2, 2: 2, 3: 2}, grid="ns"),
                 F.Suite(T_NS_CORE, "v", {4: 1}, grid="ns"),
                 F.Suite(T_S, "v", {1: 2, 2: 2, 3: 2}, grid="s"),
-                F.Suite(LONG, "one", {5: 1, 6: 1, 7: 0})]
+                F.Suite(LONG, "one", {5: 1, 6: 1, 7: 0}),
+                F.Suite(CUM_T, "v", {2: 2, 3: 2, 4: 1}, grid="ns")]
     return [F.Suite(ROWS, "v", {1: 1, 2: 1, 3: 1}),
             F.Suite(T_NS, "v", {1: 1, 2: 1}, grid="ns"),
             F.Suite(T_NS_CORE, "v", {3: 1}, grid="ns"),
             F.Suite(T_S, "v", {1: 1, 2: 1}, grid="s"),
-            F.Suite(LONG, "one", {5: 0, 6: 0})]
+            F.Suite(LONG, "one", {5: 0, 6: 0}),
+            F.Suite(CUM_T, "v", {2: 1, 3: 1}, grid="ns")]
 
 
 RULE = ("every table of R rows over x in {1,2,NaN} (y = a second column with a shifted NaN pattern), every composition "
